@@ -1,6 +1,7 @@
 package props
 
 import (
+	"net"
 	"fmt"
 	"net/netip"
 	"strings"
@@ -46,6 +47,7 @@ var c07Behaviours = []string{
 	"referral-up",       // referral for the common parent
 	"referral-self",     // non-progressing referral for Z itself with new servers
 	"referral-mixed",    // one authority section with NS sets of two owners
+	"glue-local-interface", // in-zone glue that is an address of one of this host's own network interfaces
 	"glue-loopback",     // a child delegation whose glue points at loopback / this host
 	"glue-out-of-zone",  // a child delegation served by a victim-zone host name with forged glue
 	"ns-in-answer-pad",  // answers carry Z's NS set naming a victim-zone host with forged glue
@@ -172,6 +174,27 @@ func hasZone(zs []world.ZoneSpec, name string) bool {
 func evilA(name string, ttl uint32) dns.RR {
 	return &dns.A{Hdr: dns.RR_Header{Name: name, Rrtype: dns.TypeA, Class: dns.ClassINET, Ttl: ttl}, A: netip.MustParseAddr(c07Evil).AsSlice()}
 }
+// c07LocalIface is a non-loopback IPv4 address of one of this host's interfaces (invalid if
+// there is none): the resolver reads the host's interfaces itself, so the behaviour
+// "glue-local-interface" can only be exercised with a real one.
+var c07LocalIface = func() netip.Addr {
+	addrs, err := net.InterfaceAddrs()
+	if err != nil {
+		return netip.Addr{}
+	}
+	for _, a := range addrs {
+		if ipn, ok := a.(*net.IPNet); ok {
+			if ip, ok := netip.AddrFromSlice(ipn.IP); ok {
+				ip = ip.Unmap()
+				if ip.Is4() && !ip.IsLoopback() && !ip.IsLinkLocalUnicast() {
+					return ip
+				}
+			}
+		}
+	}
+	return netip.Addr{}
+}()
+
 func nsRR(owner, host string) dns.RR {
 	return &dns.NS{Hdr: dns.RR_Header{Name: owner, Rrtype: dns.TypeNS, Class: dns.ClassINET, Ttl: 86400}, Ns: host}
 }
@@ -264,6 +287,12 @@ func execC07(sc *C07Scenario, tr *kit.Trace, res *kit.Result) {
 			m.Authoritative = false
 			m.Rcode = dns.RcodeSuccess
 			fired("glue-loopback")
+		case has("glue-local-interface") && c07LocalIface.IsValid() && (strings.HasPrefix(qn, "child.") || strings.HasPrefix(qn, "www.child.")):
+			m.Answer, m.Ns = nil, []dns.RR{nsRR("child."+Z, "ns.child."+Z)}
+			m.Extra = []dns.RR{&dns.A{Hdr: dns.RR_Header{Name: "ns.child." + Z, Rrtype: dns.TypeA, Class: dns.ClassINET, Ttl: 3600}, A: c07LocalIface.AsSlice()}}
+			m.Authoritative = false
+			m.Rcode = dns.RcodeSuccess
+			fired("glue-local-interface")
 		case has("glue-out-of-zone") && (strings.HasPrefix(qn, "child.") || strings.HasPrefix(qn, "www.child.")):
 			m.Answer, m.Ns = nil, []dns.RR{nsRR("child."+Z, "ns1."+V)}
 			m.Extra = []dns.RR{evilA("ns1."+V, 86400)}
@@ -360,7 +389,7 @@ func execC07(sc *C07Scenario, tr *kit.Trace, res *kit.Result) {
 		for _, d := range w.Net.Dials[dialsBefore:] {
 			hp := d[strings.Index(d, "/")+1:]
 			ap, err := netip.ParseAddrPort(hp)
-			if err == nil && (ap.Addr().IsLoopback() || ap.Addr().IsUnspecified() || ap.Addr().IsLinkLocalUnicast()) {
+			if err == nil && (ap.Addr().IsLoopback() || ap.Addr().IsUnspecified() || ap.Addr().IsLinkLocalUnicast() || (c07LocalIface.IsValid() && ap.Addr() == c07LocalIface)) {
 				res.Fail("C07/dialled-loopback", "%s: sdns dialled %s, an address learnt from glue", ctx, d)
 				return
 			}
